@@ -21,14 +21,20 @@ TRUSTED = ['hand-written Gallina mirror of MPS.compress and the local SVD functi
            'numpy.argsort (unstable): a sorting permutation; the recorded permutation is an input of the model',
            'abs of a complex number (square root): oracle with contract abs(z) >= 0, abs(z)^2 = |z|^2, checked on every replayed case',
            'independent numpy re-implementation of the clauses (dense contraction, dense SVD of the first cut) in harness/props/c13.py (search only)']
-PARTIAL = ('proved for all inputs (Properties/C13.v, 8 theorems closed under the global context), for every ordered field, L >= 1, d, bond profile, charges, well-formed block-sparse MPS '
+PARTIAL = ('proved for all inputs (Properties/C13.v, 10 theorems closed under the global context), for every ordered field, L >= 1, d, bond profile, charges, well-formed block-sparse MPS '
            '(boundary bonds 1, all bonds >= 1), 0 <= tol < 1 and oracles meeting qr_call_ok / dsvd_ok / pick_ok / the abs contract on the calls actually issued, BOTH modes: '
            'C13_compress_left_spec / C13_compress_right_spec (the model returns; result well formed and block sparse, every site an isometry in the sweep direction, <psi\'|psi\'> = 1, '
            'new bond dimensions <= those after the preliminary orthonormalisation <= original; nrm >= 0, nrm^2 = <psi|psi>; scale >= 0, scale^2 = prod_{i<L}(1 - eps_i) with eps_i the discarded relative weight '
            'of the i-th local truncation and 0 <= eps_i <= tol; tol = 0 gives scale = 1 and nrm*scale*amp psi\' w = amp psi w; <psi\'|psi> = nrm*scale); C13_compress_left_error / _right_error '
            '(1 - L*tol <= scale^2 <= 1 and ||nrm*scale*psi\' - psi||^2 = nrm^2 (1 - scale^2) <= nrm^2*L*tol); C13_from_vector_bound (Model/FromVector.v: ||as_vector(from_vector v tol) - v||^2 <= n*tol*||v||^2 '
-           'for oracles meeting dsvd_ok / pick_ok on the calls of the TT-SVD loop); C13_compress_nrm_partial, C13_scale_bounds_partial, C13_compress_calls. Square roots are avoided: bounds are for scale^2 and squared distances. '
-           'NOT proved, validated numerically on every generated input only: the Schmidt-value statement for the first truncated bond as a theorem about compress (C12 gives s = S[retained] per local split), '
+           'for oracles meeting dsvd_ok / pick_ok on the calls of the TT-SVD loop); C13_compress_nrm_partial, C13_scale_bounds_partial, C13_compress_calls. '
+           'C13_first_bond_schmidt_left / _right (Proofs/CompressSchmidt*.v; same hypotheses as the _spec theorems; any block structure, unsorted charges): the first call of the truncation sweep is block_svd on the matrix M '
+           'of the first (mode right: last) site tensor of the canonical normalised state psi1 = psi/||psi|| with charges (flatten(qd, qD[0]), qD[1]); with S all block singular values the oracle returns for M and K = retained pick S tol '
+           'the split returns s = S[K] and the new bond of the result has dimension |K|; the reduced density matrix rho of that site (sum over the words of the other sites of amp(s::w) conj(amp(s\'::w))) equals M M^H '
+           '(the other sites are isometries), rho(psi) = nrm^2 rho(psi1), tr rho(psi1) = 1 = sum S^2, S >= 0, and there is Uf with Uf^H Uf = I, rho = Uf diag(S^2) Uf^H, rho Uf = Uf diag(S^2) whose columns K are the returned factor: '
+           'S are the Schmidt values of the cut (eigen-decomposition with explicit eigenvectors, no spectral theorem); K has the properties of C12_retained_spec (discarded weight <= tol, kept >= discarded, maximal, tol = 0 keeps the non-zero values). '
+           'Non-vacuity with a truncating instance (4|00> + 3|11>, tol 2/5: Schmidt values 4/5, 3/5, one kept, bond 2 -> 1, scale 4/5), both modes. Square roots are avoided: bounds are for scale^2 and squared distances. '
+           'NOT proved, validated only: uniqueness of the Schmidt values as a multiset (would need a spectral theorem; the statement gives the decomposition itself), '
            'that the oracles meet their contracts (measured), that the code computes what the model computes (replay, form R; the from_vector model is tied to the code by the C03 correspondence).')
 ASSUMPTIONS = ['binary64 values are read as exact rationals; float arithmetic after a primitive is compared with tolerance 1e-9*(1+scale)',
                'MPS.from_vector: proved about Model/FromVector.v (replayed against the code by the C03 plugin), validated numerically here',
